@@ -23,7 +23,7 @@ pub fn def() -> PropDef {
     PropDef {
         id: "C15",
         level: "exploration",
-        rule: "all policies of both kinds with <= 2 filters, each filter exact/prefix over byte strings of length <= 2 from {a, b, ':', 0xff, 0x00} (empty filter, non-UTF-8, a colon for the textual form), evaluated on all keys of length <= 3 over the same bytes against the two-line definition; every filter through Display -> FromStr; set/get on existing and missing documents in memory and through reopen of a file-backed store; should_download of real remote-insert events for every policy with <= 1 filter x every key; non-trivial = a policy with at least one filter evaluated on a key that at least one of its filters matches",
+        rule: "all policies of both kinds with <= 2 filters, each filter exact/prefix over byte strings of length <= 2 from {a, b, ':', 0xff, 0x00} (empty filter, non-UTF-8, a colon for the textual form), evaluated on all keys of length <= 3 over the same bytes against the two-line definition; every filter over a richer byte set (additionally space, newline, tab and a two-byte UTF-8 character) through Display -> FromStr; set/get on existing and missing documents in memory and through reopen of a file-backed store; should_download of real remote-insert events for every policy with <= 1 filter x every key; non-trivial = a policy with at least one filter evaluated on a key that at least one of its filters matches",
         assumptions: &["filters longer than 2 bytes (3 in thorough for the textual form) and more than 2 filters per policy are outside the alphabet"],
         bound: |t| match t {
             Tier::Quick => json!({"policies": 7814, "keys": 156, "textual_filters": "length <= 2", "persisted_policies": "all in memory, every 16th through file reopen"}),
@@ -37,13 +37,21 @@ pub fn def() -> PropDef {
 
 const BYTES: [u8; 5] = [0x61, 0x62, 0x3a, 0xff, 0x00];
 
+/// Bytes for the textual form: additionally whitespace (space, newline, tab) and the two bytes of
+/// a two-byte UTF-8 character (valid together, invalid alone).
+const TEXT_BYTES: [u8; 10] = [0x61, 0x62, 0x3a, 0xff, 0x00, 0x20, 0x0a, 0x09, 0xc3, 0xa9];
+
 fn strings(max: usize) -> Vec<Vec<u8>> {
+    strings_over(&BYTES, max)
+}
+
+fn strings_over(alphabet: &[u8], max: usize) -> Vec<Vec<u8>> {
     let mut out = vec![vec![]];
     let mut frontier = vec![vec![]];
     for _ in 0..max {
         let mut next = vec![];
         for s in &frontier {
-            for b in BYTES {
+            for &b in alphabet {
                 let mut s2: Vec<u8> = s.clone();
                 s2.push(b);
                 next.push(s2);
@@ -320,7 +328,7 @@ fn run(ctx: &Ctx, report: &mut Report) {
         }
     }
     // textual form
-    let text_strings = strings(if ctx.quick() { 2 } else { 3 });
+    let text_strings = strings_over(&TEXT_BYTES, if ctx.quick() { 2 } else { 3 });
     for e in [true, false] {
         for s in &text_strings {
             ordinal += 1;
